@@ -93,7 +93,7 @@ def run(tier):
         names, kinds, decls, edges, order = c11.graph_module(r11)
         cases.append(("g%d" % i, c11.render(names, kinds, decls, edges, r11.sample(order, len(order)))[0], "declaration-graphs"))
     c7 = c07.cases(tier); r7 = random.Random(ck.seed + 7)
-    for i, c in enumerate(r7.sample(c7, min(len(c7), 600 if tier == "quick" else 5000))): cases.append(("k%d" % i, c[1] + "fn main()\n{\n}\n", "typing-gate"))
+    for i, c in enumerate(r7.sample(c7, min(len(c7), 600 if tier == "quick" else 5000)) + [c for c in c7 if c[0].startswith(("ADV", "CP", "LEN"))]): cases.append(("k%d" % i, c[1] + "fn main()\n{\n}\n", "typing-gate"))
     for i, (name, tmpl, _) in enumerate(c08.INVALID + c08.VALID): cases.append(("u%d" % i, tmpl.format(t="i32"), "mutability-rules"))
     g8 = gen_c08.generate(); r8 = random.Random(ck.seed + 8)
     for i, (cid, src) in enumerate(r8.sample(g8, min(len(g8), 300 if tier == "quick" else 1784)) + gen_c08.random_programs(100 if tier == "quick" else 5000, ck.seed)):
